@@ -196,9 +196,13 @@ class Ctx:
             twin.case = case
             twin._guarded(fn, case)
             if twin._obs != obs:
-                raise HarnessError(
-                    "nondeterminism: case %r gave different observations on immediate re-execution"
-                    % (jsonable(case),)
+                # the same case, re-executed at once in the same process, observed something else:
+                # the result is not a function of the inputs (hidden state carried between calls)
+                self.case = case
+                self.violation(
+                    "history-dependent-result",
+                    "re-executing the same case immediately gives different observations: the code under "
+                    "test carries state between calls (or the harness is nondeterministic)",
                 )
         self.case = None
 
